@@ -204,6 +204,112 @@ func checkC14(r *Run) propMeta {
 					if fn != nil {
 						callers = len(cg.In[fn])
 					}
+					// what the function touches for each of the three directions, the tests on the direction decided and
+					// every other condition taken both ways
+					var sidesFor func(list []ast.Stmt, value string, into map[string]bool)
+					decide := func(cond ast.Expr, value string) int {
+						cbe, ok := ast.Unparen(cond).(*ast.BinaryExpr)
+						if !ok || (cbe.Op != token.EQL && cbe.Op != token.NEQ) || !(isDirection(cbe.X) || isDirection(cbe.Y)) {
+							return -1
+						}
+						k := dirConst(cbe.X) + dirConst(cbe.Y)
+						if k == "" {
+							return -1
+						}
+						if (k == value) == (cbe.Op == token.EQL) {
+							return 1
+						}
+						return 0
+					}
+					sidesFor = func(list []ast.Stmt, value string, into map[string]bool) {
+						for _, st := range list {
+							switch t := st.(type) {
+							case *ast.IfStmt:
+								switch decide(t.Cond, value) {
+								case 1:
+									sidesFor(t.Body.List, value, into)
+								case 0:
+									if t.Else != nil {
+										sidesFor([]ast.Stmt{t.Else}, value, into)
+									}
+								default:
+									for k := range sidesIn(t.Cond) {
+										into[k] = true
+									}
+									if t.Init != nil {
+										sidesFor([]ast.Stmt{t.Init}, value, into)
+									}
+									sidesFor(t.Body.List, value, into)
+									if t.Else != nil {
+										sidesFor([]ast.Stmt{t.Else}, value, into)
+									}
+								}
+							case *ast.BlockStmt:
+								sidesFor(t.List, value, into)
+							case *ast.ForStmt:
+								sidesFor(t.Body.List, value, into)
+							case *ast.RangeStmt:
+								for k := range sidesIn(t.X) {
+									into[k] = true
+								}
+								sidesFor(t.Body.List, value, into)
+							case *ast.SwitchStmt:
+								if t.Tag != nil && isDirection(t.Tag) {
+									var deflt, hit *ast.CaseClause
+									for _, c := range t.Body.List {
+										cc := c.(*ast.CaseClause)
+										if cc.List == nil {
+											deflt = cc
+										}
+										for _, e := range cc.List {
+											if dirConst(e) == value {
+												hit = cc
+											}
+										}
+									}
+									if hit == nil {
+										hit = deflt
+									}
+									if hit != nil {
+										sidesFor(hit.Body, value, into)
+									}
+									continue
+								}
+								for k := range sidesIn(t) {
+									into[k] = true
+								}
+							default:
+								// closures handed to iterators run for the same direction
+								handled := false
+								ast.Inspect(st, func(m ast.Node) bool {
+									if fl, ok := m.(*ast.FuncLit); ok {
+										sidesFor(fl.Body.List, value, into)
+										handled = true
+										return false
+									}
+									return true
+								})
+								if !handled {
+									for k := range sidesIn(st) {
+										into[k] = true
+									}
+								}
+							}
+						}
+					}
+					perDir := map[string]map[string]bool{}
+					for _, v := range []string{"Outbound", "Inbound", "Both"} {
+						perDir[v] = map[string]bool{}
+						sidesFor(fd.Body.List, v, perDir[v])
+					}
+					if perDir["Outbound"]["out"] && perDir["Inbound"]["in"] && !perDir["Outbound"]["in"] && !perDir["Inbound"]["out"] {
+						if perDir["Both"]["out"] && perDir["Both"]["in"] {
+							r.Pass("C14-R1-direction-exhaustive", construct, s.Pos(), "with the tests on the direction decided, an outbound query touches the out side only, an inbound query the in side only, and a query for both touches both")
+						} else {
+							r.Fail("C14-R1-direction-exhaustive", construct, s.Pos(), "two-way branch `direction %s Direction%s`: with the tests on the direction decided, a query for DirectionBoth touches only %v although outbound and inbound queries touch one side each: 'both' is treated like a single direction", be.Op, c, sortedKeys(perDir["Both"]))
+						}
+						return true
+					}
 					if callers == 0 {
 						r.Pass("C14-R1-direction-exhaustive", construct, s.Pos(), "two-way branch on Direction%s in a function without callers in the module (unused API; DirectionBoth would take the %s arm)", c, map[bool]string{true: "else", false: "then"}[be.Op == token.EQL])
 						r.Note("%s branches two-way on Direction%s and has no caller in the module", funcDeclName(fd), c)
